@@ -1960,6 +1960,15 @@ pub open spec fn evolved(pre: ProtocolState, post: ProtocolState) -> bool {
     &&& post.pending_write_completion == pre.pending_write_completion
     &&& post.slow_start_ack_count == pre.slow_start_ack_count
 }
+pub open spec fn slow_start_marks(pre: ProtocolState, post: ProtocolState) -> bool {
+    pre.config.post_reconnect_queue_drain_policy == PostReconnectQueueDrainPolicy::OneAtATime ==>
+        forall|k: u64| #[trigger] post.operations@.contains_key(k) ==>
+            post.operations@[k].slow_start_ack_value == (if awaiting_ack(pre, k) { 1u32 } else { pre.operations@[k].slow_start_ack_value })
+}
+pub open spec fn interruption_counts(pre: ProtocolState, post: ProtocolState) -> bool {
+    forall|k: u64| #[trigger] post.operations@.contains_key(k) ==> post.operations@[k].interruption_count ==
+        (if pre.config.max_interrupted_retries is Some && awaiting_ack(pre, k) { (pre.operations@[k].interruption_count + 1) as u32 } else { pre.operations@[k].interruption_count })
+}
 // the engine between connections
 pub open spec fn offline(s: ProtocolState) -> bool {
     &&& s.state == ProtocolStateType::Disconnected
@@ -1968,8 +1977,40 @@ pub open spec fn offline(s: ProtocolState) -> bool {
     &&& s.current_operation is None
 }
 
+// closing the half-written operation removes at most that operation's own entries from the in-flight tables
+pub proof fn lemma_awaiting_after_current_close(pre: ProtocolState, post: ProtocolState, k: u64)
+    requires pre.wf(), post.operations@.contains_key(k),
+        tables_unchanged(pre, post) || (pre.current_operation matches Some(c) && pre.operations@.contains_key(c) && removed_exactly(pre, post, c)),
+    ensures awaiting_ack(post, k) == awaiting_ack(pre, k),
+{
+    if !tables_unchanged(pre, post) {
+        let c = pre.current_operation->Some_0;
+        assert(k != c);
+        if awaiting_ack(pre, k) {
+            if pre.pending_publish_operations@.values().contains(k) {
+                let p = choose|p: u16| pre.pending_publish_operations@.contains_key(p) && pre.pending_publish_operations@[p] == k;
+                assert(pre.operations@[k].packet_id == Some(p));
+                assert(post.pending_publish_operations@.contains_key(p) && post.pending_publish_operations@[p] == k);
+            } else {
+                let p = choose|p: u16| pre.pending_non_publish_operations@.contains_key(p) && pre.pending_non_publish_operations@[p] == k;
+                assert(pre.operations@[k].packet_id == Some(p));
+                assert(post.pending_non_publish_operations@.contains_key(p) && post.pending_non_publish_operations@[p] == k);
+            }
+        }
+        if awaiting_ack(post, k) {
+            if post.pending_publish_operations@.values().contains(k) {
+                let p = choose|p: u16| post.pending_publish_operations@.contains_key(p) && post.pending_publish_operations@[p] == k;
+                assert(pre.pending_publish_operations@.contains_key(p) && pre.pending_publish_operations@[p] == k);
+            } else {
+                let p = choose|p: u16| post.pending_non_publish_operations@.contains_key(p) && post.pending_non_publish_operations@[p] == k;
+                assert(pre.pending_non_publish_operations@.contains_key(p) && pre.pending_non_publish_operations@[p] == k);
+            }
+        }
+    }
+}
+
 impl ProtocolState {
-//@fn gneiss-mqtt/src/protocol.rs ProtocolState::handle_network_event_connection_closed props=C01,C04,C06,C07,C11,C15,C18 desugar
+//@fn gneiss-mqtt/src/protocol.rs ProtocolState::handle_network_event_connection_closed props=C01,C04,C06,C07,C09,C11,C15,C18 desugar
     requires old(self).wf(), interruptions_in_range(*old(self)),
     ensures final(self).wf(),
         old(self).state == ProtocolStateType::Disconnected ==> r is Err && *final(self) == *old(self),
@@ -1981,10 +2022,16 @@ impl ProtocolState {
             &&& final(self).pending_publish_operations@ == Map::<u16, u64>::empty() && final(self).pending_non_publish_operations@ == Map::<u16, u64>::empty()
             &&& final(self).pending_write_completion_operations@.len() == 0
             &&& final(self).high_priority_operation_queue@.len() == 0
+            // C09: whatever state the connection ended in (Connected, Halted after an error, PendingDisconnect, PendingConnack), every surviving
+            // operation that was sent-but-unacknowledged is marked for the one-at-a-time drain, and earlier marks are kept
+            &&& slow_start_marks(*old(self), *final(self))
+            // C18: ... and, with a retry limit configured, is charged exactly one interruption; no other operation is
+            &&& interruption_counts(*old(self), *final(self))
         },
 //@@loop 0 manual=it
             invariant it.obeys_prophetic_iter_laws(), it.decrease() is Some,
                 self.wf(), offline(*self), evolved(*old(self), *self), result is Ok,
+                slow_start_marks(*old(self), *self), interruption_counts(*old(self), *self),
                 self.pending_publish_operations@ == Map::<u16, u64>::empty(), self.pending_write_completion_operations@.len() == 0,
                 self.high_priority_operation_queue@.len() == 0,
                 forall|i: int| 0 <= i < it.remaining().len() ==> (self.operations@.contains_key((#[trigger] it.remaining()[i]).1) ==> *self.operations@[it.remaining()[i].1].packet is Publish),
@@ -1992,6 +2039,7 @@ impl ProtocolState {
 //@@loop 1 manual=it
             invariant it.obeys_prophetic_iter_laws(), it.decrease() is Some,
                 self.wf(), offline(*self), evolved(*old(self), *self), result is Ok,
+                slow_start_marks(*old(self), *self), interruption_counts(*old(self), *self),
                 self.pending_publish_operations@ == Map::<u16, u64>::empty(), self.pending_non_publish_operations@ == Map::<u16, u64>::empty(), self.pending_write_completion_operations@.len() == 0,
                 self.high_priority_operation_queue@.len() == 0,
             decreases it.decrease()->Some_0,
@@ -2006,16 +2054,23 @@ impl ProtocolState {
         proof { assert(self.wf()); assert(evolved(*old(self), s2)); }
 //@@at after "self.update_interrupted_retries();"
         let ghost s3 = *self;
-        proof { assert(self.wf()); assert(evolved(*old(self), s3)); }
+        proof {
+            assert(self.wf()); assert(evolved(*old(self), s3));
+            // the only table entries the close of the half-written operation can have removed are that operation's own
+            assert forall|k: u64| #[trigger] s3.operations@.contains_key(k) implies awaiting_ack(s1, k) == awaiting_ack(*old(self), k) by {
+                lemma_awaiting_after_current_close(*old(self), s1, k);
+            }
+            assert(slow_start_marks(*old(self), s3)); assert(interruption_counts(*old(self), s3));
+        }
 //@@at after "generate_connection_closed_error));"
         let ghost s4 = *self;
-        proof { assert(evolved(*old(self), s4)); }
+        proof { assert(evolved(*old(self), s4)); assert(slow_start_marks(*old(self), s4)); assert(interruption_counts(*old(self), s4)); }
 //@@at after "generate_offline_queue_policy_failed_error)); @nth=1/2"
         let ghost s5 = *self;
-        proof { assert(evolved(*old(self), s5)); }
+        proof { assert(evolved(*old(self), s5)); assert(slow_start_marks(*old(self), s5)); assert(interruption_counts(*old(self), s5)); }
 //@@at after "result = fold_mqtt_result(result, self.fail_operations_exceeding_max_interruption_limit());"
         let ghost s6 = *self;
-        proof { assert(evolved(*old(self), s6)); }
+        proof { assert(evolved(*old(self), s6)); assert(slow_start_marks(*old(self), s6)); assert(interruption_counts(*old(self), s6)); }
 //@@at after "mem::swap(&mut unacked_publish_table, &mut self.pending_publish_operations);"
         proof { assert(self.ss_set() =~= s6.ss_set()); assert(self.wf()); }
 //@@at after "mem::swap(&mut unacked_sub_unsub_table, &mut self.pending_non_publish_operations);"
